@@ -68,3 +68,8 @@
         c.input_filenames == c0.input_filenames && c.opts == c0.opts && c.quiet == c0.quiet && c.use_colors == c0.use_colors
         && c.show_version == c0.show_version && c.show_help == c0.show_help
     }
+    /// everything but the input files is as in c0
+    pub open spec fn same_but_inputs(c: Command, c0: Command) -> bool {
+        c.output_groups == c0.output_groups && c.opts == c0.opts && c.quiet == c0.quiet && c.use_colors == c0.use_colors
+        && c.show_version == c0.show_version && c.show_help == c0.show_help
+    }
